@@ -401,45 +401,61 @@ Definition marshal_error (e : werr) : option bytes :=
        | None => None
        end.
 
+(* the error member jmessage.toJSON writes.  json.Marshal of the *Error fails when its data are
+   not valid JSON.  Since fix F16/F17 (switch [fix16]) toJSON then encodes the error WITHOUT its
+   data, json.Marshal(&Error{Code, Message}), which cannot fail, instead of returning Marshal's
+   error (which made the server drop the whole record, and the client send an empty one). *)
+Definition drop_data (e : werr) : werr := {| we_code := we_code e; we_msg := we_msg e; we_data := [] |}.
+Definition enc_error_gen (fix16 : bool) (e : werr) : option bytes :=
+  match marshal_error e with
+  | Some eb => Some eb
+  | None => if fix16 then marshal_error (drop_data e) else None
+  end.
+Definition enc_error : werr -> option bytes := enc_error_gen true.
+
 (* jmessage.toJSON *)
-Definition enc_msg (m : jmsg) : option bytes :=
+Definition enc_msg_gen (fix16 : bool) (m : jmsg) : option bytes :=
   let head := s_head ++ (if beq (j_id m) [] then [] else s_id ++ j_id m) in
   if negb (beq (j_method m) []) then
     Some (head ++ s_method ++ escape_string (j_method m) ++
           (if beq (j_params m) [] then [] else s_params ++ j_params m) ++ [125])
   else if negb (beq (j_result m) []) then Some (head ++ s_result ++ j_result m ++ [125])
   else match j_error m with
-       | Some e => match marshal_error e with
+       | Some e => match enc_error_gen fix16 e with
                    | Some eb => Some (head ++ s_error ++ eb ++ [125])
                    | None => None
                    end
        | None => Some (head ++ [125])
        end.
+Definition enc_msg : jmsg -> option bytes := enc_msg_gen true.
 
-Fixpoint enc_all (ms : list jmsg) : option (list bytes) :=
+Fixpoint enc_all_gen (fix16 : bool) (ms : list jmsg) : option (list bytes) :=
   match ms with
   | [] => Some []
-  | m :: r => match enc_msg m, enc_all r with
+  | m :: r => match enc_msg_gen fix16 m, enc_all_gen fix16 r with
               | Some b, Some bs' => Some (b :: bs')
               | _, _ => None
               end
   end.
+Definition enc_all : list jmsg -> option (list bytes) := enc_all_gen true.
 
-(* jmessages.toJSON; batch = the batch flag of the (first) message *)
-Definition enc_msgs (batch : bool) (ms : list jmsg) : option bytes :=
+(* jmessages.toJSON; batch = the batch flag of the (first) message.  One member that cannot be
+   encoded makes the whole record fail (before fix F16 that could happen: F17) *)
+Definition enc_msgs_gen (fix16 : bool) (batch : bool) (ms : list jmsg) : option bytes :=
   match ms, batch with
-  | [m], false => enc_msg m
-  | _, _ => match enc_all ms with
+  | [m], false => enc_msg_gen fix16 m
+  | _, _ => match enc_all_gen fix16 ms with
             | Some bl => Some (91 :: join_with [44] bl ++ [93])
             | None => None
             end
   end.
+Definition enc_msgs : bool -> list jmsg -> option bytes := enc_msgs_gen true.
 
-(* Response.MarshalJSON *)
+(* Response.MarshalJSON (goes through jmessage.toJSON) *)
 Definition response_marshal (id : bytes) (err : option werr) (result : bytes) : option bytes :=
   enc_msg {| j_id := id; j_method := []; j_params := []; j_error := err; j_result := result; j_err := None |}.
 
-(* jhttp marshalError: json.Marshal(req.Error) ("null" for a nil pointer), id "" -> null *)
+(* jhttp marshalError: its own json.Marshal(req.Error), not toJSON (no fallback there) ("null" for a nil pointer), id "" -> null *)
 Definition s_bridge_id : bytes := Eval vm_compute in bs "{""jsonrpc"":""2.0"",""id"":".
 Definition bridge_marshal_error (r : parsed_request) : option bytes :=
   match (match pr_error r with Some e => marshal_error e | None => Some null_bytes end) with
